@@ -44,11 +44,11 @@ Theorem generated_block_reads_memberwise : forall c fuel B i, inclass c B ->
   forall s o al st, 0 <= p_pos st ->
     req (run_instr c (fun f => read_ty c fuel (f_ty f)) s o al i st) (do r <- seq_block c fuel B s (p_pos st) st; Ok (set_pos (fst r) (snd r))).
 Proof. exact block_sound. Qed.
-(* THE PROPERTY for packed structures as the parser makes them (no set offsets, no bit fields) whose members are scalars of any kind, fixed-size arrays of
-   scalars, or have a reader of their own (nested structures and unions, arrays of them, multi-dimensional and dynamically sized arrays - `cls'`): whenever the
+(* THE PROPERTY for packed structures as the parser makes them (no set offsets) whose members are scalars of any kind, bit fields over integer and enum storage types, fixed-size arrays of
+   scalars, or have a reader of their own (nested structures and unions, arrays of them, multi-dimensional and dynamically sized arrays - `cls'`; void members and LEB128 members - for which the generator gives up - are outside): whenever the
    generator produces a plan, running the generated statements returns exactly what the interpreted reader returns - the same object
    (values in declaration order, recorded sizes) and the same end position - or both raise.  Block merging, the seeks after sub-readers
-   (position_known), the tracked offset and the fall back to sequential reading after a dynamically sized member are all inside. *)
+   (position_known), the tracked offset, the bit-field bookkeeping (unit switches decided three times: by the layout, by the generator and by the bit buffer; bit_reader.reset() when a run ends) and the fall back to sequential reading after a dynamically sized member are all inside. *)
 Theorem compiled_reader_is_interpreted_reader : forall c fuel nm fs p,
   Forall (fun f => f_off f = None /\ cls' c fuel f) fs -> NoDup (map f_name fs) -> bsize c fs <= 9223372036854775807 ->
   compile_plan c false fs = Ok p ->
@@ -70,22 +70,26 @@ Example ex_block : block_read "<" [PInt 2 false true; PInt 1 true true; PFloat 4
 Proof. vm_compute. split; reflexivity. Qed.
 
 (* non-vacuity of compiled_reader_is_interpreted_reader:
-   struct { uint8 a; uint16 b; N n; int24 c; char d[3]; uint16 h[2]; int24 i[2]; uint8 k; uint8 arr[k]; uint32 g; wchar w; }  with  struct N { uint8 x; uint32 y; } *)
+   struct { uint8 a; uint16 b; N n; int24 c; char d[3]; uint16 h[2]; int24 i[2]; uint16 f1 : 3; uint16 f2 : 9; uint8 f3 : 4; uint8 k; uint8 arr[k]; uint32 g; wchar w; }
+   with  struct N { uint8 x; uint32 y; } *)
 Definition exc_cfg := mkCfg "<" (PInt 8 false true) 8 [] [].
 Definition exc_u8 := TPrim (PInt 1 false true) 1.
+Definition exc_u16 := TPrim (PInt 2 false true) 2.
 Definition exc_N := TStruct "N" [Fld "x" false exc_u8 None None; Fld "y" false (TPrim (PInt 4 false true) 4) None None] false.
-Definition exc_fs := [Fld "a" false exc_u8 None None; Fld "b" false (TPrim (PInt 2 false true) 2) None None; Fld "n" false exc_N None None;
-                      Fld "c" false (TPrim (PInt 3 true false) 4) None None; Fld "d" false (TArr (TPrim PChar 1) (LFixed 3)) None None; Fld "h" false (TArr (TPrim (PInt 2 false true) 2) (LFixed 2)) None None;
-                      Fld "i" false (TArr (TPrim (PInt 3 true false) 4) (LFixed 2)) None None; Fld "k" false exc_u8 None None;
+Definition exc_fs := [Fld "a" false exc_u8 None None; Fld "b" false exc_u16 None None; Fld "n" false exc_N None None;
+                      Fld "c" false (TPrim (PInt 3 true false) 4) None None; Fld "d" false (TArr (TPrim PChar 1) (LFixed 3)) None None; Fld "h" false (TArr exc_u16 (LFixed 2)) None None;
+                      Fld "i" false (TArr (TPrim (PInt 3 true false) 4) (LFixed 2)) None None;
+                      Fld "f1" false exc_u16 (Some 3) None; Fld "f2" false exc_u16 (Some 9) None; Fld "f3" false exc_u8 (Some 4) None; Fld "k" false exc_u8 None None;
                       Fld "arr" false (TArr exc_u8 (LExpr ["k"] false)) None None; Fld "g" false (TPrim (PInt 4 false true) 4) None None;
                       Fld "w" false (TPrim PWchar 2) None None].
 Example exc_class : Forall (fun f => f_off f = None /\ cls' exc_cfg 50 f) exc_fs /\ NoDup (map f_name exc_fs) /\ bsize exc_cfg exc_fs <= 9223372036854775807
   /\ exists p, compile_plan exc_cfg false exc_fs = Ok p.
 Proof.
   split; [|split; [|split]].
-  - repeat (apply Forall_cons; [split; [reflexivity|]; split; [reflexivity|];
-        first [ left; vm_compute; discriminate
-              | right; split; [reflexivity|]; apply sub_ok_of_shift; [vm_compute; reflexivity|intros n H; vm_compute in H; try discriminate; injection H as <-; lia] ]|]).
+  - repeat (apply Forall_cons; [split; [reflexivity|];
+        first [ left; split; [reflexivity|]; left; vm_compute; discriminate
+              | left; split; [reflexivity|]; right; split; [reflexivity|]; apply sub_ok_of_shift; [vm_compute; reflexivity|intros n H; vm_compute in H; try discriminate; injection H as <-; lia]
+              | right; do 4 eexists; repeat split; try reflexivity; try discriminate ]|]).
     apply Forall_nil.
   - cbn. repeat constructor; cbn; intuition discriminate.
   - vm_compute. discriminate.
@@ -93,12 +97,13 @@ Proof.
 Qed.
 Example exc_plan : (do p <- compile_plan exc_cfg false exc_fs; Ok (skel p)) =
   Ok [SBlock 3 [(1, "B"); (1, "H")] true [("a", GData 0, 1); ("b", GData 1, 2)]; SSub "n"; SSeek 8;
-      SBlock 17 [(6, "x"); (2, "H"); (6, "x"); (1, "B")] true
-        [("c", GBuf 0 3, 3); ("d", GBuf 3 6, 3); ("h", GDataN 0 2, 4); ("i", GBuf 10 16, 6); ("k", GData 2, 1)]; SSub "arr";
+      SBlock 16 [(6, "x"); (2, "H"); (6, "x")] true [("c", GBuf 0 3, 3); ("d", GBuf 3 6, 3); ("h", GDataN 0 2, 4); ("i", GBuf 10 16, 6)];
+      SBits "f1" 3 false false; SBits "f2" 9 false false; SBits "f3" 4 false false; SReset;
+      SBlock 1 [(1, "B")] true [("k", GData 0, 1)]; SSub "arr";
       SBlock 6 [(1, "I"); (2, "x")] true [("g", GData 0, 4); ("w", GBuf 4 6, 2)]].
 Proof. vm_compute. reflexivity. Qed.
-Example exc_run : let s := [1; 2; 3; 4; 5; 6; 7; 8; 9; 10; 11; 65; 66; 67; 1; 2; 3; 4; 5; 6; 7; 8; 9; 10; 2; 13; 14; 15; 16; 17; 18; 66; 0; 99] in
+Example exc_run : let s := [1; 2; 3; 4; 5; 6; 7; 8; 9; 10; 11; 65; 66; 67; 1; 2; 3; 4; 5; 6; 7; 8; 9; 10; 173; 222; 91; 2; 13; 14; 15; 16; 17; 18; 66; 0; 99] in
   read_compiled exc_cfg 50 false exc_fs s 0 = read_ty exc_cfg 50 (TStruct "m" exc_fs false) s 0 [] /\
-  (exists v, read_compiled exc_cfg 50 false exc_fs s 0 = Ok (v, 33)) /\
-  (exists er, read_compiled exc_cfg 50 false exc_fs (firstn 32 s) 0 = Err er) /\ (exists er, read_ty exc_cfg 50 (TStruct "m" exc_fs false) (firstn 32 s) 0 [] = Err er).
+  (exists v, read_compiled exc_cfg 50 false exc_fs s 0 = Ok (v, 36)) /\
+  (exists er, read_compiled exc_cfg 50 false exc_fs (firstn 35 s) 0 = Err er) /\ (exists er, read_ty exc_cfg 50 (TStruct "m" exc_fs false) (firstn 35 s) 0 [] = Err er).
 Proof. cbv zeta. split; [vm_compute; reflexivity|]. split; [eexists; vm_compute; reflexivity|]. split; eexists; vm_compute; reflexivity. Qed.
